@@ -356,7 +356,7 @@ static Tables fixedTiger() {
     return t;
 }
 
-static const long kFixed = 4;
+static const long kFixed = 5;
 
 long verif::verif_ncases(const std::string & tier) {
     return kFixed + (tier == "thorough" ? 6000 : 260);
@@ -370,6 +370,19 @@ static void runFixed(long idx) {
         AI::Vector b(3); b << 0.125, 0.625, 0.25;
         emitInPlaceAll(M, b, 0, 0, true);
         emitInPlaceAll(M, b, 0, 1, true);
+        return;
+    }
+    if (idx == 4) {
+        // boundary of the sparse storage rule `|p| > equalToleranceSmall`: the double 1e-6 itself is dropped by the
+        // sparse containers, the next double above it is stored (a `<` for `<=` in checkEqualSmall shows here only)
+        const double e = 1e-6, e2 = std::nextafter(1e-6, 1.0);
+        Tables t; t.S = 2; t.A = 1; t.O = 2; t.discount = 0.5;
+        t.T = {{{e, 1.0 - e}}, {{1.0 - e2, e2}}};
+        t.Ob = {{{e, 1.0 - e}}, {{e2, 1.0 - e2}}};
+        t.R = {{{1.0, 0.0}}, {{0.0, 1.0}}};
+        Models M(t);
+        for (size_t c = 0; c < 2; ++c) { AI::Vector b(2); b.setZero(); b[c] = 1.0; emitUpd(M, b, 0, false); }
+        { AI::Vector b(2); b << 0.5, 0.5; emitUpd(M, b, 0, false); }
         return;
     }
     Tables t = idx == 0 ? fixedCycle() : idx == 1 ? fixedAsym() : fixedTiger();
